@@ -304,7 +304,9 @@ fn judge(out: &mut Out, st: &Step) {
         None => select_ok && misc(post)[0] == "C",
     };
     // (Commit from an empty buffer in Entering is a directly committed character, not an auto-commit)
-    let auto = committed && state1 == b'E' && (n > 0 || state0 != b'E');
+    // since fix 4573298 the length limit is also enforced while a syllable is being entered: a key that ends in
+    // EnteringSyllable with the answer Commit has auto-committed (a fuzzy key inserted the previous partial syllable)
+    let auto = committed && ((state1 == b'E' && (n > 0 || state0 != b'E')) || state1 == b'Y');
     let mut r = 0usize;
     if auto {
         if st.no_word_pre.is_some() || st.no_word_post.is_some() {
